@@ -69,6 +69,12 @@ struct VMMon
     std::atomic<int> in_exec{ 0 };
     std::atomic<int> max_in_exec{ 0 };
     std::atomic<long long> failpoints{ 0 };
+    // guarded region of runtime::execute ("acquired" .. "before_release"): how many threads are inside
+    std::atomic<int> owners{ 0 };
+    std::atomic<int> max_owners{ 0 };
+    // instructions started while the exit request was already visible to the executing thread (per run: current / worst)
+    std::atomic<long long> after_flag_cur{ 0 };
+    std::atomic<long long> after_flag_max{ 0 };
     long long frames_done = 0, frames_forwarded = 0, endstatements = 0;
     size_t max_values = 0, max_frames = 0;
     // stack partition monitor
